@@ -149,6 +149,23 @@ theorem map_size_interval_ordered (inputMax : Int) (offset limit : Option Int) (
     | none => simp only; omega
     | some l => have := hl l rfl; simp only; omega
 
+/-- … and with the saturating conversion of the `usize` LIMIT / OFFSET the hypothesis on their sign is always met: for *every* LIMIT and
+OFFSET a query can carry the interval is well formed -/
+theorem map_size_total (inputMax : Int) (offset limit : Option Nat) (hm : 0 ≤ inputMax) :
+    0 ≤ mapSizeHi inputMax (offset.map usizeToI64Sat) (limit.map usizeToI64Sat) := by
+  apply map_size_interval_ordered inputMax _ _ hm
+  · intro o ho
+    cases offset with
+    | none => simp at ho
+    | some n => simp only [Option.map_some, Option.some.injEq] at ho; subst ho; unfold usizeToI64Sat maxI; split <;> omega
+  · intro l hl
+    cases limit with
+    | none => simp at hl
+    | some n => simp only [Option.map_some, Option.some.injEq] at hl; subst hl; unfold usizeToI64Sat maxI; split <;> omega
+
+/-- the conversion as it was (`as i64`): `LIMIT 18446744073709551615` becomes −1 and the interval `[0, −1]` is built -/
+theorem map_size_wrapping_counterexample : mapSizeHi 100 none (some (usizeAsI64 18446744073709551615)) < 0 := by decide
+
 /-- the `saturating_sub` variant is negative as soon as the OFFSET exceeds the input size: the interval assertion fires -/
 theorem map_size_saturating_counterexample : mapSizeHiSaturating 100 (some 200) (some 10) < 0 := by decide
 
